@@ -129,7 +129,7 @@ def fixture_obs(tier, rnd):
         # parameters are named after the ordinal of the CVAL they replace (w3 = 4th stored controller value)
         obs.append(Ob(f"fixture.{name}", build([U32(f"w{cv.index(i)}") for i in sel], body, setup=SETUP),
                       f"{os.path.basename(path)} with CVAL chunks #{sel} replaced by arbitrary 32-bit words: fixed point after one load/save cycle, saving is pure",
-                      group="fixture", shape=f"{os.path.basename(path)} re-emitted chunk by chunk", symbolic=f"{len(sel)} stored controller words over 0..2^32-1", timeout=300))
+                      group="fixture", shape=f"{os.path.basename(path)} re-emitted chunk by chunk", symbolic=f"{len(sel)} stored controller words over 0..2^32-1", timeout=300 if tier == "quick" else 900))
     return obs
 
 
